@@ -7,9 +7,10 @@ SPEC = {
                   'ural/normalize_url.py:get_normalized_hostname', 'ural/normalize_url.py:normalize_hostname'],
     "function_sidecars": {'ural/fingerprint_url.py:get_fingerprinted_hostname': ["fingerprint_url_main"], 'ural/fingerprint_url.py:fingerprint_hostname': ["fingerprint_url_main"],
                           'ural/normalize_url.py:get_normalized_hostname': ["normalize_url_main"], 'ural/normalize_url.py:normalize_hostname': ["normalize_url_main"]},
+    "lemma_modules": ["props.C07_lemmas"],
     "bounded": ["bcheck.c07"],
     "explanation": (
-        "Deductive extras (all inputs, pyvc): canonicalized / normalized / fingerprinted_lru_stems return exactly lru_stems_from_parsed_url of the unsplit=False record of the corresponding URL function, called with the caller's suffix_aware flag and keyword arguments; get_hostname is total (ValueError of urlsplit caught) and returns the parser's hostname or None, never an empty string; get_normalized_hostname / get_fingerprinted_hostname (str entry point) are total and return normalize_hostname / fingerprint_hostname of the host the parser sees after redirection inference, stripping and ensuring a scheme (None when it does not parse or has no host); normalize_hostname and fingerprint_hostname apply the same host steps, in the same order, as the URL-level functions' record contracts (C05 / C06 sidecars). "
+        "Deductive extras (all inputs, pyvc): canonicalized / normalized / fingerprinted_lru_stems return exactly lru_stems_from_parsed_url of the unsplit=False record of the corresponding URL function, called with the caller's suffix_aware flag and keyword arguments; get_hostname is total (ValueError of urlsplit caught) and returns the parser's hostname or None, never an empty string; structural: every option a helper shares with its URL-level function (or with lru_stems) has the same default in both real signatures (a call that leaves options out means the same on both sides); get_normalized_hostname / get_fingerprinted_hostname (str entry point) are total and return normalize_hostname / fingerprint_hostname of the host the parser sees after redirection inference, stripping and ensuring a scheme (None when it does not parse or has no host); normalize_hostname and fingerprint_hostname apply the same host steps, in the same order, as the URL-level functions' record contracts (C05 / C06 sidecars). "
         "Deciding step BOUNDED (differential between two code paths of the repository): get_normalized_hostname / normalize_hostname vs the host of "
         "normalize_url, get_fingerprinted_hostname / fingerprint_hostname vs the host of fingerprint_url, canonicalized / normalized / fingerprinted "
         "lru stems vs lru_stems of the corresponding URL (scheme stem removed when the scheme was stripped), get_hostname vs urlsplit after "
